@@ -3,7 +3,7 @@ CONSTANTS
   MaxFields = 3
   MaxFieldLen = 1
   MaxFieldLen2 = 1
-  MaxFields2 = 2
+  MaxFields2 = 1
   MaxText = 3
 INVARIANTS T_FormatsOk T_RoundTrip T_QuoteIffNeeded T_Total T_Plain T_FixedPoint T_NeverIsLossy
 CHECK_DEADLOCK FALSE
